@@ -41,6 +41,10 @@ def parse_acts(text):
             stages = [(n + k + 1, kd) for k, kd in enumerate(kinds)]
             n += len(kinds)
             acts.append({"op": "L", "bg": parts[1] == "b", "stages": stages})
+        elif parts[0] == "P":
+            # `export CICV=$(fgprobe pN)`: a one-stage pipeline run for a command substitution; the stage notes whether it owns the terminal
+            acts.append({"op": "L", "bg": False, "stages": [(n + 1, "X0")], "probe": True})
+            n += 1
         elif parts[0] in ("F", "B"):
             acts.append({"op": parts[0], "arg": parts[1] if len(parts) > 1 else None})
         elif parts[0] in ("K", "T", "U"):
@@ -282,11 +286,25 @@ class Session:
                 ps.append("%d%s%d" % (i, st, 1 if (fp is not None and pgrp == fp) else 0))
         # the terminal's group is classified after the pids are known
         o = "%s;%s;%s;%s" % ("P" if self.at_prompt() else "W", self.tclass(), ",".join(ps), ",".join(self.outs(start, is_jobs)))
+        if getattr(self, "cur_probe", None) is not None:
+            try:
+                o += ";own=" + open(os.path.join(self.side, "p%d.probe" % self.cur_probe)).read().strip()
+            except OSError:
+                o += ";own=??"
+                complete = False
         return o, complete
 
     # ------------------------------------------------------------------ actions
     def send(self, a):
         op = a["op"]
+        self.cur_probe = None
+        if op == "L" and a.get("probe"):
+            i = a["stages"][0][0]
+            self.helpers.append(i)
+            self.first_of[i] = i
+            self.cur_probe = i
+            os.write(self.fd, b"export CICV=$(fgprobe p%d)\r" % i)
+            return "line"
         if op == "L":
             for i, kd in a["stages"]:
                 if kd != "N":
